@@ -24,7 +24,10 @@ vars == <<rules, path, trailing, cert, out>>
 Dec(t) == CASE t = "%2e%2e" -> <<"..">> [] t = "%2E" -> <<".">> [] t = "app%2fsecret.gmi" -> <<"app", "secret.gmi">>
             [] t = "%61pp" -> <<"app">>
             \* double-encoded spellings: ONE decoding step gives a single, literal name (which does not exist in the capsule)
-            [] t = "app%252fsecret.gmi" -> <<"app%2fsecret.gmi">> [] t = "%252e%252e" -> <<"%2e%2e">> [] OTHER -> <<t>>
+            [] t = "app%252fsecret.gmi" -> <<"app%2fsecret.gmi">> [] t = "%252e%252e" -> <<"%2e%2e">>
+            \* a segment that is not valid UTF-8 once decoded, cancelled by the ".." after it; a backslash is a character of a name
+            [] t = "app/%FF/.." -> <<"app", "-undecodable-", "..">> [] t = "app%5csecret.gmi" -> <<"app-backslash-secret.gmi">>
+            [] OTHER -> <<t>>
 RECURSIVE Flat(_)
 Flat(p) == IF p = <<>> THEN <<>> ELSE Dec(Head(p)) \o Flat(Tail(p))
 \* ---- what the handler serves: resolution of the decoded path below the document root ------------------
